@@ -23,7 +23,17 @@ void* UCM(void* a) { __CPROVER_assert(a == (void*)g_dst, "uniqueClusterMap of th
 void SPM_COPY(void* d, void* s) { *(SPM*)d = *(SPM*)s; } void SPM_DTOR(void* s) { }
 void* UC(void* m, uint64_t* st) { __CPROVER_assert(g_ucm && m == m_dst, "C11/C14: uniqueCluster on the map that dst.uniqueClusterMap() made exclusive"); g_uc_state = *st; g_uc_valid = 1; SP_PTR(&cell_spc) = TOKC; return &cell_spc; }
 void SPC_COPY(void* d, void* s) { *(SPC*)d = *(SPC*)s; } void SPC_DTOR(void* s) { g_uc_valid = 0; }
-void* UTS(void* c, uint64_t* sym) { __CPROVER_assert(c == TOKC && g_uc_valid, "uniqueTuplePtrSet on the cluster handed out by uniqueCluster"); g_uts_state = g_uc_state; g_uts_sym = *sym; g_uts_valid = 1; SP_PTR(&cell_spts) = TOKS; return &cell_spts; }
+/* other ways to a cluster of the destination map (not used by the code today): operator[] hands out a cluster that is NOT known to be exclusively
+   owned -- it may be shared with another automaton -- unless it is the one the function has just allocated itself */
+#define TOKC2 ((void*)(uintptr_t)40)
+void* VERIF_new(uint64_t n) { __CPROVER_assert(n <= sizeof g_newcell, "operator new: the static cell is large enough"); return g_newcell; } void VERIF_delete(void* p) { }
+static void* cmap_index(void* m, uint64_t* k) { __CPROVER_assert(g_ucm && m == m_dst, "C11/C14: operator[] on the map that dst.uniqueClusterMap() made exclusive"); g_idx_state = *k; SP_PTR(&cell_spc2) = nondet_bool() ? TOKC2 : (void*)0; return &cell_spc2; }
+void* CMAP_INDEX_RV(void* m, uint64_t* k) { return cmap_index(m, k); } void* CMAP_INDEX(void* m, uint64_t* k) { return cmap_index(m, k); }
+_Bool SPC_BOOL(void* s) { return SP_PTR((SPC*)s) != 0; }
+void CLU_BASE_CTOR(void* c) { }
+void SPC_RAW(void* s, void* raw) { SP_PTR((SPC*)s) = raw; g_fresh_cluster = raw; }
+void* SPC_MOVEASG(void* d, void* s) { SP_PTR((SPC*)d) = SP_PTR((SPC*)s); SP_PTR((SPC*)s) = 0; return d; }
+void* UTS(void* c, uint64_t* sym) { __CPROVER_assert((c == TOKC && g_uc_valid) || (c != 0 && c == g_fresh_cluster), "C11/C14: uniqueTuplePtrSet on an exclusively owned cluster (handed out by uniqueCluster, or freshly allocated)"); g_uts_state = (c == TOKC) ? g_uc_state : g_idx_state; g_uts_sym = *sym; g_uts_valid = 1; SP_PTR(&cell_spts) = TOKS; return &cell_spts; }
 void SPTS_COPY(void* d, void* s) { *(SPTS*)d = *(SPTS*)s; } void SPTS_DTOR(void* s) { g_uts_valid = 0; }
 /* ---- the rules of the source: witness traversal of owners / symbols / tuples, positional traversal of the children ---- */
 void* CMAP_BEGIN(void* m) { __CPROVER_assert(m == m_src, "traversal of the source's cluster map"); seen_q = 0; return has_w ? TOK : MAYBE; }
@@ -60,5 +70,5 @@ TSET_INSRET TSET_INSERT(void* set, void* x) {
   if (cur_t) ins_w = 1; g_tl_valid = 0; TSET_INSRET r; r.f1 = nondet_bool(); return r; }
 void h_RIS(void) { g_this = malloc(sizeof *g_this); g_dst = malloc(sizeof *g_dst); m_src = malloc(64); m_dst = malloc(64); __CPROVER_assume(g_this && g_dst && m_src && m_dst);
   SP_PTR(&g_this->f2) = m_src; SP_PTR(&g_dst->f2) = m_dst;
-  ins_w = 0; fin_done = 0; g_ssf_called = 0; g_ucm = 0; g_uc_valid = 0; g_uts_valid = 0; g_tl_valid = 0;
+  g_fresh_cluster = 0; ins_w = 0; fin_done = 0; g_ssf_called = 0; g_ucm = 0; g_uc_valid = 0; g_uts_valid = 0; g_tl_valid = 0;
   void* ix = malloc(1); RIS(g_this, g_dst, ix, nondet_bool()); CANARY("h_RIS"); }
